@@ -419,4 +419,28 @@ example :
   refine ⟨107, ?_⟩
   decide
 
+/-! ### repair of finding C05 `delayed-group-subtasks-run` (`TaskDispatcher.inherited_status`) in both systems
+
+When a creator is evaluated through a placeholder node that has bad_deps (its `executed` task failed / is unmet), every
+task name of the batch is remembered (`Sys.inherited`) and the node `_gen_node` makes later for such a name starts
+with the mark (`mkNodeI`).  All theorems above are re-proved over the changed systems with unchanged statements. -/
+
+/-- the trigger 0 of `exInput` fails (`--continue`); the creator is still evaluated and yields 1, 2 (depends on 7) and
+    a NEW task 7 without any dependency -/
+def exInherit : Input :=
+  { exInput true with
+    fails := fun n => n = 0
+    continue_ := true
+    make := fun _ _ => [{ name := 1 }, { name := 2, deps := [7] }, { name := 7 }] }
+
+/-- the created task 7 — whose node is made after the creator ran and which depends on nothing — is reported `unmet`,
+    not started: it inherited the placeholder's bad_deps (before the repair the model, like doit, ran it) -/
+theorem inherited_unmet_not_started :
+    Reach exInherit (autoRun exInherit 300 (init exInherit)) ∧
+    (autoRun exInherit 300 (init exInherit)).susp = .stopIter ∧
+    (autoRun exInherit 300 (init exInherit)).events.reverse =
+      [.start 0, .failure 0, .creator 0, .unmet 1, .unmet 7, .unmet 2, .unmet 3] ∧
+    (autoRun exInherit 300 (init exInherit)).inherited 7 = true :=
+  ⟨autoRun_reach 300 _ Reach.init, by decide, by decide, by decide⟩
+
 end DoitModel.C15
